@@ -593,7 +593,7 @@ func (n *node) exec(line string) string {
 		return "unmodelled"
 	}
 	switch ws[0] {
-	case "add", "rmlast", "rmto", "restart", "crash", "conc":
+	case "add", "rmlast", "rmto", "restart", "crash", "conc", "fault":
 		n.hist = append(n.hist, line)
 	}
 	if !n.alive {
@@ -661,6 +661,34 @@ func (n *node) exec(line string) string {
 		}
 		n.nRestart++
 		return n.start()
+	}
+	if ws[0] == "fault" && len(ws) >= 3 {
+		// fault <j> <mutator>: the j-th physical write of the op returns an error (hook H2b) and the op carries on
+		if !faultHook {
+			return "unmodelled"
+		}
+		j, err := strconv.Atoi(ws[1])
+		if err != nil || j < 0 {
+			return "bad-op"
+		}
+		if ws[2] == "rmto" && core.GetGroupChain().Count() >= 1<<32 {
+			return "unmodelled"
+		}
+		armFault(j)
+		var ok bool
+		res := guard(func() string {
+			var r string
+			r, ok = n.mutate(ws[2:])
+			return r
+		})
+		disarmFault()
+		if strings.HasPrefix(res, "PANIC") {
+			return res
+		}
+		if !ok {
+			return "bad-op"
+		}
+		return res + " " + n.status()
 	}
 	if ws[0] == "crash" && len(ws) >= 3 {
 		k, err := strconv.Atoi(ws[1])
@@ -1057,6 +1085,9 @@ func (g *gen) mutator(allowCrash bool) string {
 	default:
 		op = fmt.Sprintf("rmto %d", r.Intn(len(g.listed)+2))
 	}
+	if allowCrash && faultHook && r.Chance(1, 12) {
+		return fmt.Sprintf("fault %d %s", r.Intn(5), op)
+	}
 	if allowCrash && r.Chance(1, 5) {
 		op = fmt.Sprintf("crash %d %s", r.Intn(6), op)
 		if strings.Contains(op, "rmto") && r.Bool() {
@@ -1181,6 +1212,54 @@ func (g *gen) bootCrashes() int {
 				}
 			}
 		}
+	}
+	return cnt
+}
+
+// writeFaults: every single failing write of one add, one remove and a two-step fork-switch removal,
+// each followed by queries, a retry of the operation and a restart.
+func (g *gen) writeFaults() int {
+	if !faultHook {
+		return 0
+	}
+	cnt := 0
+	for j := 0; j < 4; j++ {
+		g.pool = idPool
+		g.boot(1)
+		g.emit(fmt.Sprintf("fault %d add a1 %s %s 1", j, g.last(), g.listed[0]))
+		g.resync()
+		g.probes()
+		g.emit(fmt.Sprintf("add a1 %s %s 1", "9001", g.listed[0])) // retry
+		g.resync()
+		g.probes()
+		g.emit("restart")
+		g.resync()
+		if g.alive {
+			g.probes()
+		}
+		cnt++
+	}
+	for j := 0; j < 8; j++ {
+		g.pool = idPool
+		g.boot(1)
+		g.emit("add a1 9001 9001 1")
+		g.emit("add b1b2 a1 9001 2")
+		if j < 4 {
+			g.emit(fmt.Sprintf("fault %d rmlast", j))
+		} else {
+			g.emit(fmt.Sprintf("fault %d rmto 0", j))
+		}
+		g.resync()
+		g.probes()
+		g.emit("rmlast") // retry
+		g.resync()
+		g.probes()
+		g.emit("restart")
+		g.resync()
+		if g.alive {
+			g.probes()
+		}
+		cnt++
 	}
 	return cnt
 }
@@ -1425,6 +1504,7 @@ func main() {
 			violFile.Sync()
 		}
 	}
+	faulted := false  // some write of the current history failed with an error
 	crashed := false  // some op of the current history was actually cut by a crash
 	inDomain := false // oracle on: the generator running now produces well-formed histories only
 	broken := false   // the current history already violated the property: later symptoms derive from it
@@ -1477,14 +1557,28 @@ func main() {
 		}
 		switch f[0] {
 		case "boot":
-			broken, crashed = false, false
+			broken, crashed, faulted = false, false, false
 		case "bootcrash":
-			broken, crashed = false, strings.HasPrefix(res, "crashed")
-		case "add", "rmlast", "rmto", "restart", "crash", "cadd":
+			broken, crashed, faulted = false, strings.HasPrefix(res, "crashed"), false
+		case "add", "rmlast", "rmto", "restart", "crash", "cadd", "fault":
 		default:
 			return res
 		}
 		mutators++
+		// a store write that failed with an error: class = operation + which of its four writes + symptom
+		prefix := ""
+		if faulted {
+			// memory and store already diverged at an earlier failed write: everything later derives from it
+			return res
+		}
+		if f[0] == "fault" && len(f) >= 3 {
+			what := "remove"
+			if f[2] == "add" {
+				what = "save"
+			}
+			j, _ := strconv.Atoi(f[1])
+			prefix = fmt.Sprintf("writefault:%s:w%d:", what, j%4)
+		}
 		if f[0] == "crash" && strings.HasPrefix(res, "crashed") {
 			crashed = true
 		}
@@ -1495,7 +1589,11 @@ func main() {
 		if n.alive && !strings.HasPrefix(res, "PANIC") {
 			// holds in EVERY live state (also after crashes, also in histories already marked broken)
 			if k, d := n.rawOracle(); k != "" {
-				report(k, d)
+				report(prefix+k, d)
+				if prefix != "" {
+					faulted, broken = true, true
+					return res
+				}
 			}
 		}
 		if broken {
@@ -1509,6 +1607,9 @@ func main() {
 		} else if n.alive {
 			evals++
 			key, desc = n.oracle()
+		}
+		if prefix != "" {
+			faulted = true // whatever shows later in this history derives from the failed write
 		}
 		if key == "" {
 			return res
@@ -1529,10 +1630,10 @@ func main() {
 				what = "save"
 			}
 			key = fmt.Sprintf("crash:%s:k%d:%s", what, (n.writes-w0)%4, key)
-		} else if crashed {
+		} else if crashed && prefix == "" {
 			key = "crash:latent:" + key
 		}
-		report(key, desc)
+		report(prefix+key, desc)
 		return res
 	}
 	g := &gen{r: r, emit: emit, pool: idPool, n: n}
@@ -1567,6 +1668,7 @@ func main() {
 		inDomain = true
 		nEx = g.exhaustive(depth, true) // shortest histories first: they make the replay of a finding
 		g.bootCrashes()
+		g.writeFaults()
 		for i := 0; i < nSeq; i++ {
 			g.randomSequence(maxOps, i%3 != 0)
 		}
@@ -1585,6 +1687,7 @@ func main() {
 		nEx = g.exhaustive(depth, true)
 		if part == 0 {
 			g.bootCrashes()
+			g.writeFaults()
 		}
 		for i := 0; i < nSeq; i++ {
 			g.randomSequence(maxOps, i%3 != 0)
